@@ -170,6 +170,30 @@ pub fn check(s: &Scenario) -> CheckResult {
             let n = nodes[k].spec.terminals();
             let before: Vec<Option<Datum<Command>>> = nodes[k].dev.terms.iter().map(|t| read_command(*t)).collect();
             let own_before: Vec<Option<Datum<Command>>> = nodes[k].dev.terms.iter().map(|t| own_command(*t)).collect();
+            // "present at its terminals": a terminal's command read is the newer of its own slot and its partner's (external
+            // terminal or joined neighbour) - checked against the slots, so that the relay oracle below does not rest on the
+            // very read it uses
+            for j in 0..n {
+                let partner: Option<Datum<Command>> = match nodes[k].ext[j] {
+                    Some(e) => own_command(e),
+                    None => {
+                        if !is_diff && k + 1 < m && j == out_idx(&nodes[k].spec) {
+                            own_command(nodes[k + 1].dev.terms[in_idx(&nodes[k + 1].spec)])
+                        } else if !is_diff && k > 0 && j == in_idx(&nodes[k].spec) {
+                            own_command(nodes[k - 1].dev.terms[out_idx(&nodes[k - 1].spec)])
+                        } else {
+                            None
+                        }
+                    }
+                };
+                let ok = match (own_before[j], partner, before[j]) {
+                    (None, None, None) => true,
+                    (Some(a), None, Some(g)) | (None, Some(a), Some(g)) => g == a,
+                    (Some(a), Some(b), Some(g)) => (g == a || g == b) && g.time >= a.time && g.time >= b.time,
+                    _ => false,
+                };
+                ensure!(ok, format!("C13/{}/terminal-command-read", format!("{:?}", nodes[k].spec).split('(').next().unwrap()), "round {}: device {} terminal {} holds command {:?}, its partner {:?}; the command read there is {:?}, expected the newer of the two", ri, k, j, own_before[j], partner, before[j]);
+            }
             let r = catch(|| (nodes[k].dev.update)());
             ensure!(matches!(r, Ok(Ok(()))), "C13/update-failed", "round {}: update of device {} returned {:?}", ri, k, r);
             let after: Vec<Option<Datum<Command>>> = nodes[k].dev.terms.iter().map(|t| read_command(*t)).collect();
